@@ -219,6 +219,7 @@ theorem pend_step (fx : Bool) (cap : Nat) (s s' : St) (hinv : Inv fx s) (hp : Pe
     have hmem := mem_of_lookup _ _ _ (hp j d0 id hd0 hd0p)
     exact absurd hst (sweep_not_pending s.pending s.callers j d id hmem hj)
   | callAbort i c hi hw hfx hd => exact keep i _ (by intro d id h; simp at h)
+  | giveUp i c hi hw hctx => exact keep i _ (by intro d id h; simp at h)
   | sever h => exact hp
 
 theorem pend_init (cs : List Caller) (h : ∀ c ∈ cs, c.st = .idle ∧ c.assigned = none) : PendInv (init cs) := by
